@@ -37,6 +37,8 @@ def spec_call(ex, name, e, env):
         return z3.ForAll(vs, body) if name == "forall" else z3.Exists(vs, body)
     if name == "implies":
         a = ex.truth(ex.ev(e.args[0], env))
+        if z3.is_false(z3.simplify(a)):
+            return z3.BoolVal(True)
         saved = len(ex.pc)
         ex.pc.append(a)
         try:
@@ -114,6 +116,15 @@ def spec_call(ex, name, e, env):
         return z3.BoolVal(ex.ev(e.args[0], env) is None)
     if name == "real":
         return to_real(lift(ex.ev(e.args[0], env)))
+    if name == "numeric":
+        v = ex.ev(e.args[0], env)
+        tags = ex.type_tag(v)
+        return z3.BoolVal("Number" in tags and "bool" not in tags)
+    if name == "same_value":
+        a, b = ex.ev(e.args[0], env), ex.ev(e.args[1], env)
+        if a is None or b is None:
+            return z3.BoolVal(a is None and b is None)
+        return ex.equal(a, b)
     if name == "cnt":
         # cnt(container, i): number of members of the dict/set (by key) below i
         from vf.lemmas import z3lemmas as zl
